@@ -3,7 +3,7 @@ open Model
 open Zconv
 
 let flavour_of cfg = match cfg with
-  | "str" :: _ -> FStr | "var" :: _ -> FVar | "ptr" :: _ -> FPtr | "xml" :: _ -> FXml
+  | "str" :: _ | "strx" :: _ -> FStr | "var" :: _ -> FVar | "ptr" :: _ -> FPtr | "xml" :: _ -> FXml
   | _ -> failwith "case line needs a flavour: str | var | ptr | xml"
 let kind_of cfg = match cfg with _ :: k :: _ -> k | _ -> ""
 
@@ -27,17 +27,49 @@ let digits_of_z (x : z) : string = match x with
     go bits ""
   | _ -> "_"
 
-(* mirrors the argument checks of the harness; `Bad s`: the line both sides print instead of an observation *)
+(* mirrors the argument checks of the harness; `Bad s`: the line both sides print instead of an observation.
+   `pk v` = the contents variable v reads now and `lv v` = whether it is constructed (from the model state in model
+   mode, from the spec state in spec mode): a few entry points take an argument that depends on the own text
+   (trim assigns substr(..) of it, append(p, n) with p pointing into it, join / printf of the own text).
+   Variable 6 is the handle the library itself constructs inside a call (`String copy( *this)` of prepend,
+   `Variant tmp = other` of Variant::swap, the String substr returns in trim). *)
 type parsed = Op of op | Ops of op list | Bad of string
 let in_range s = match int_of_string_opt s with Some v -> v >= 0 && v < 6 | None -> false
-let parse_op f kind toks : parsed =
+let tmpv = nat_of_int 6
+let marker s = match int_of_string_opt s with Some m when m >= 1 && m <= 7 -> Some m | _ -> None
+let literals = [| "-"; "12"; "1576" |]                 (* "", "ab", "aB C" *)
+(* String::replace(const String&, const String&) on marker strings *)
+let replace_all (text : string) (needle : string) (repl : string) : string =
+  let n = String.length needle and b = Buffer.create 16 in
+  let i = ref 0 in
+  while !i < String.length text do
+    if n > 0 && !i + n <= String.length text && String.sub text !i n = needle then (Buffer.add_string b repl; i := !i + n)
+    else (Buffer.add_char b text.[!i]; incr i)
+  done;
+  Buffer.contents b
+let seq_ops = ["create"; "null"; "copy"; "fromraw"; "assign"; "assignraw"; "assignval"; "reset"; "swap"; "write"; "detach"; "destroy"; "viaelem"; "resize"; "reserve";
+               "tolower"; "toupper"; "replace"; "charptr"; "appends"; "pluseq"; "pluseqc"; "appendp"; "appendself"; "prepends"; "prependp"; "trim";
+               "assignscalar"; "nullk"; "vswap"; "retype";
+               "attach"; "lit"; "assignlit"; "printf"; "printfself"; "join"; "replacess"; "constptr"]
+let parse_op ?(x = false) f kind (pk : int -> z) (lv : int -> bool) toks : parsed =
   match toks with
-  | o :: v :: rest when List.mem o ["create"; "null"; "copy"; "fromraw"; "assign"; "assignraw"; "assignval"; "reset"; "swap"; "write"; "detach"; "destroy"; "viaelem"; "resize"; "reserve"] ->
+  | o :: v :: rest when List.mem o seq_ops ->
     let arg = match rest with a :: _ -> a | [] -> "-" in
-    let two = List.mem o ["copy"; "fromraw"; "assign"; "assignraw"; "swap"; "viaelem"] in
+    let arg2 = match rest with _ :: a :: _ -> a | _ -> "-" in
+    let arg3 = match rest with _ :: _ :: a :: _ -> a | _ -> "-" in
+    let two = List.mem o ["copy"; "fromraw"; "assign"; "assignraw"; "swap"; "viaelem"; "appends"; "pluseq"; "prepends"; "vswap"] in
+    let str_only = List.mem o ["tolower"; "toupper"; "replace"; "charptr"; "appends"; "pluseq"; "pluseqc"; "appendp"; "appendself"; "prepends"; "prependp"; "trim"] in
+    let x_only = List.mem o ["attach"; "lit"; "assignlit"; "printf"; "printfself"; "join"; "replacess"; "constptr"] in
+    let len_of vi = int_of_z (slen (pk vi)) in
+    let dlen s = if s = "-" then 0 else String.length s in
+    let maxlen = 100 in                                  (* both sides skip a call that would make a text longer than this *)
+    let nop vi = Op (OSwap (nat_of_int vi, nat_of_int vi)) in       (* String / Variant: swap is not an op of theirs: nothing happens *)
+    let set vi c = if lv vi then Ops [ODestroy (nat_of_int vi); OCreate (nat_of_int vi, c)] else nop vi in   (* value semantics: v holds c *)
     if not (in_range v) then Bad "?bad-var"
     else if two && not (in_range arg) then Bad "?bad-var"
-    else begin match o with
+    else if str_only && f <> FStr then Bad "?unsupported"
+    else if x_only && not x then Bad "?unsupported"
+    else begin let vi = int_of_string v in match o with
       | "create" -> if f = FPtr then Op (OCreate (nat v, z_of_int (int_of_string arg)))
         else if not (is_digits arg) then Bad "?bad-contents" else Op (OCreate (nat v, z_of_digits arg))
       | "null" -> Op (ONull (nat v))
@@ -54,9 +86,9 @@ let parse_op f kind toks : parsed =
         else if v = arg then Op (ODetach (nat v)) else Ops [ODetach (nat v); OAssign (nat v, nat arg)]
       | "reset" -> Op (OReset (nat v))
       | "swap" -> Op (OSwap (nat v, nat arg))
-      | "write" -> (match int_of_string_opt arg with
-          | Some m when m >= 1 && m <= 7 -> if f = FXml && kind = "text" then Bad "?unsupported" else Op (OWrite (nat v, z_of_int m))
-          | _ -> Bad "?bad-contents")
+      | "write" | "pluseqc" -> (match marker arg with
+          | Some m -> if f = FXml && kind = "text" then Bad "?unsupported" else Op (OWrite (nat v, z_of_int m))
+          | None -> Bad "?bad-contents")
       | "detach" -> if f = FXml && kind = "text" then Bad "?unsupported" else Op (ODetach (nat v))
       | "resize" | "reserve" ->                          (* String only: resize(min(n, length)) / reserve(n) *)
         (match int_of_string_opt arg with
@@ -64,6 +96,68 @@ let parse_op f kind toks : parsed =
            if f <> FStr then Bad "?unsupported"
            else if o = "resize" then Op (OResize (nat v, z_of_int n)) else Op (OReserve (nat v, z_of_int n))
          | _ -> Bad "?bad-contents")
+      (* ---- the other modifiers of String: detach(..), then the own block is written ---- *)
+      | "tolower" -> Op (OStrMod (nat v, SMap MLower))
+      | "toupper" -> Op (OStrMod (nat v, SMap MUpper))
+      | "replace" | "charptr" ->                         (* replace(char, char) | char* p = s; store through p *)
+        (match marker arg, marker arg2 with
+         | Some a, Some b -> Op (OStrMod (nat v, SMap (MRepl (z_of_int a, z_of_int b))))
+         | _ -> Bad "?bad-contents")
+      | "appends" | "pluseq" ->                          (* append(const String&) | operator+=(const String&) *)
+        if len_of vi + len_of (int_of_string arg) > maxlen then nop vi else Op (OStrCatV (false, nat v, nat arg))
+      | "appendp" -> if not (is_digits arg) then Bad "?bad-contents"
+        else if len_of vi + dlen arg > maxlen then nop vi else Op (OStrMod (nat v, SCat (false, z_of_digits arg)))
+      | "appendself" ->                                  (* s.append((const char* )s + off, n): the argument points into the own text *)
+        (match int_of_string_opt arg, int_of_string_opt arg2 with
+         | Some off, Some n when off >= 0 && n >= 0 && off <= 80 && n <= 80 ->
+           if 2 * len_of vi > maxlen then nop vi else
+           Op (OStrMod (nat v, SCat (false, subv (pk vi) (z_of_int off) (z_of_int n))))
+         | _ -> Bad "?bad-contents")
+      (* prepend keeps the old text alive through `String copy( *this)` while it detaches *)
+      | "prepends" -> if len_of vi + len_of (int_of_string arg) > maxlen then nop vi
+        else Ops [OCopy (tmpv, nat v); OStrCatV (true, nat v, nat arg); ODestroy tmpv]
+      | "prependp" -> if not (is_digits arg) then Bad "?bad-contents"
+        else if len_of vi + dlen arg > maxlen then nop vi
+        else Ops [OCopy (tmpv, nat v); OStrMod (nat v, SCat (true, z_of_digits arg)); ODestroy tmpv]
+      | "trim" ->                                        (* `if(newLen != len) *this = substr(..)`: a new String, assigned *)
+        if not (is_digits arg) then Bad "?bad-contents" else
+        let c = pk vi in
+        let c' = trimv (z_of_digits arg) c in
+        if not (lv vi) || c' = c then nop vi
+        else Ops [OCreate (tmpv, c'); OAssign (nat v, tmpv); ODestroy tmpv]
+      (* ---- Variant: scalar values live in the handle itself (no payload): `v = 5` is clear() + inline data ---- *)
+      | "assignscalar" -> if f <> FVar then Bad "?unsupported" else Op (OReset (nat v))
+      | "nullk" -> if f <> FVar then Bad "?unsupported" else Op (ONull (nat v))
+      | "vswap" ->                                       (* Variant::swap: tmp = other; other = *this; *this = tmp *)
+        if f <> FVar then Bad "?unsupported"
+        else Ops [OCopy (tmpv, nat arg); OAssign (nat arg, nat v); OAssign (nat v, tmpv); ODestroy tmpv]
+      | "retype" ->
+        (* both `type != T` branches in one op: the write accessor of another type (a new empty payload), and the value
+           assignment of the case's type with contents c; Xml element cases the other way round (v = text c; v.toElement()) *)
+        if not (is_digits arg) then Bad "?bad-contents"
+        else if f <> FVar && f <> FXml then Bad "?unsupported"
+        else if f = FXml && kind <> "text" then Ops [ORetype (nat v, z_of_digits arg); ORetype (nat v, Z0)]
+        else Ops [ORetype (nat v, Z0); ORetype (nat v, z_of_digits arg)]
+      (* ---- flavour strx only (no Model): uncounted data (attach, literals) and the modifiers built from other calls ---- *)
+      | "attach" -> if not (is_digits arg) then Bad "?bad-contents" else set vi (z_of_digits arg)
+      | "lit" | "assignlit" ->
+        (match int_of_string_opt arg with
+         | Some k when k >= 0 && k < Array.length literals ->
+           if o = "lit" then (if lv vi then nop vi else Op (OCreate (nat v, z_of_digits literals.(k)))) else set vi (z_of_digits literals.(k))
+         | _ -> Bad "?bad-contents")
+      | "printf" -> if not (is_digits arg) then Bad "?bad-contents" else set vi (z_of_digits arg)
+      | "printfself" -> if not (is_digits arg) then Bad "?bad-contents"
+        else if len_of vi + dlen arg > maxlen then nop vi else set vi (cat (z_of_digits arg) (pk vi))
+      | "join" ->                                        (* v.join([a, b], sep) *)
+        (match marker arg3 with
+         | Some m when in_range arg && in_range arg2 ->
+           let a = int_of_string arg and b = int_of_string arg2 in
+           if lv a && lv b && len_of a + len_of b < maxlen then set vi (cat (push (pk a) (z_of_int m)) (pk b)) else nop vi
+         | _ -> Bad "?bad-contents")
+      | "replacess" -> if not (is_digits arg && is_digits arg2) || arg = "-" then Bad "?bad-contents"
+        else if len_of vi * (1 + dlen arg2) > maxlen then nop vi
+        else set vi (z_of_digits (let r = replace_all (digits_of_z (pk vi)) arg (if arg2 = "-" then "" else arg2) in if r = "" || r = "_" then "-" else r))
+      | "constptr" -> nop vi
       | _ -> Op (ODestroy (nat v))
     end
   | _ -> Bad "?unknown-op"
@@ -292,19 +386,21 @@ let conc_main mode file =
        c)
     (fun _ -> emit "end")
 
-let seq_main mode file =
+let seq_main ?(x = false) mode file =
   if mode = "model" || mode = "aswritten" then begin
     let obj_only = (mode = "aswritten") in
     let dead = ref false in
     run_cases file (fun cfg -> dead := false; (flavour_of cfg, kind_of cfg, init))
       (fun (f, k, st) _ toks ->
          if !dead then (f, k, st) else begin
-           match parse_op f k toks with
+           let pk v = peek st (nat_of_int v) and lv v = (match List.nth_opt st.vars v with Some (VLive (_, _)) -> true | _ -> false) in
+           match parse_op f k pk lv toks with
            | Bad s -> emit s; (f, k, st)
            | (Op _ | Ops _) as po ->
              let (pre, o) = (match po with Op o -> ([], o) | Ops l -> (List.rev (List.tl (List.rev l)), List.hd (List.rev l)) | Bad _ -> assert false) in
              let st = List.fold_left (fun s o -> if obj_only then step_as_written f s o else step f s o) st pre in
              let (st', obs) = step_obs obj_only f st o in
+             let obs = List.filteri (fun i _ -> i < 6) obs in
              (match st'.flt with
               | Some x -> emit (fault_str x); dead := true
               | None ->
@@ -325,12 +421,13 @@ let seq_main mode file =
   end else
     run_cases file (fun cfg -> (flavour_of cfg, kind_of cfg, sinit))
       (fun (f, k, st) _ toks ->
-         match parse_op f k toks with
+         let pk v = speek st (nat_of_int v) and lv v = (match List.nth_opt st.svars v with Some SDead | None -> false | _ -> true) in
+         match parse_op ~x f k pk lv toks with
          | Bad s -> emit s; (f, k, st)
          | (Op _ | Ops _) as po ->
            let ops = (match po with Op o -> [o] | Ops l -> l | Bad _ -> []) in
            let st' = List.fold_left (spec_step f) st ops in
-           let vals = String.concat " " (List.map (sval_str f) st'.svars) in
+           let vals = String.concat " " (List.map (sval_str f) (List.filteri (fun i _ -> i < 6) st'.svars)) in
            (match f with
             | FPtr -> emit (Printf.sprintf "%s | live=%d dtors=%d aux=ok" vals (int_of_nat (reachable st')) (int_of_nat (must_be_destroyed st')))
             | _ -> emit vals);
@@ -424,14 +521,16 @@ let nest_main mode file =
    handed to the matching loop in turn, so the output stays in case order *)
 let () =
   let mode = Sys.argv.(1) and file = Sys.argv.(2) in
-  let sort_of cfg = if (match cfg with "nest" :: _ -> true | _ -> false) then 2 else if is_conc cfg then 1 else 0 in
+  (* flavour strx (String with uncounted data: attach, literals, and the modifiers built from other calls) has no Model:
+     the model driver prints what the value-semantics Spec prints *)
+  let sort_of cfg = match cfg with "nest" :: _ -> 2 | "strx" :: _ -> 3 | _ -> if is_conc cfg then 1 else 0 in
   let run_segment sort (lines : string list) =
     if lines <> [] then begin
       let tmp = Filename.temp_file "rcseg" ".ops" in
       let oc = open_out tmp in
       List.iter (fun l -> output_string oc l; output_char oc '\n') (List.rev lines);
       close_out oc;
-      (match sort with 2 -> nest_main mode tmp | 1 -> conc_main mode tmp | _ -> seq_main mode tmp);
+      (match sort with 2 -> nest_main mode tmp | 1 -> conc_main mode tmp | 3 -> seq_main ~x:true "spec" tmp | _ -> seq_main mode tmp);
       flush stdout;
       Sys.remove tmp
     end in
